@@ -35,20 +35,40 @@ Definition kmod4 (neg : bool) (o : positive) (j : Z) : nat :=
   Z.to_nat ((if neg then - (Z.pos o * 2 ^ j) else Z.pos o * 2 ^ j) mod 4).
 
 Definition family_ok (neg : bool) (o : positive) (j : Z) : bool :=
-  let x := ang_of (f_o2j neg o j) in
-  flag x && Nat.eqb (rot_branch x) (kmod4 neg o j).
+  flag (ang_of (f_o2j neg o j)) && Nat.eqb (rot_branch (ang_of (f_o2j neg o j))) (kmod4 neg o j).
+
+Definition famP (o : positive) (j : Z) : bool := family_ok false o j && family_ok true o j.
+
+Lemma forallb_zrange (P : Z -> bool) len lo : forallb P (zrange_from lo len) = true ->
+  forall j, lo <= j < lo + Z.of_nat len -> P j = true.
+Proof. intros H j Hj. rewrite forallb_forall in H. apply H. now apply In_zrange_from. Qed.
+
+Lemma fam1 : forallb (famP 1) (zrange_from 0 1001) = true. Proof. vm_compute. reflexivity. Qed.
+Lemma fam3 : forallb (famP 3) (zrange_from 0 1001) = true. Proof. vm_compute. reflexivity. Qed.
+Lemma fam5 : forallb (famP 5) (zrange_from 0 1001) = true. Proof. vm_compute. reflexivity. Qed.
+Lemma fam7 : forallb (famP 7) (zrange_from 0 1001) = true. Proof. vm_compute. reflexivity. Qed.
+Lemma fam9 : forallb (famP 9) (zrange_from 0 1001) = true. Proof. vm_compute. reflexivity. Qed.
+
+Lemma famP_true o j : In o [1; 3; 5; 7; 9]%positive -> 0 <= j <= 1000 -> famP o j = true.
+Proof.
+  intros Ho Hj. assert (Hr : 0 <= j < 0 + Z.of_nat 1001) by lia.
+  cbn [In] in Ho. destruct Ho as [<-|[<-|[<-|[<-|[<-|[]]]]]].
+  - exact (forallb_zrange (famP 1) 1001 0 fam1 j Hr).
+  - exact (forallb_zrange (famP 3) 1001 0 fam3 j Hr).
+  - exact (forallb_zrange (famP 5) 1001 0 fam5 j Hr).
+  - exact (forallb_zrange (famP 7) 1001 0 fam7 j Hr).
+  - exact (forallb_zrange (famP 9) 1001 0 fam9 j Hr).
+Qed.
 
 Theorem flag_family_all_magnitudes : forall (neg : bool) (o : positive) (j : Z),
   In o [1; 3; 5; 7; 9]%positive -> 0 <= j <= 1000 ->
   flag (ang_of (f_o2j neg o j)) = true /\ rot_branch (ang_of (f_o2j neg o j)) = kmod4 neg o j.
 Proof.
-  intros neg o j Ho Hj.
-  assert (H : forallb (fun o => forallb (fun j => family_ok false o j && family_ok true o j) (zrange_from 0 1001))
-                      [1; 3; 5; 7; 9]%positive = true) by (vm_compute; reflexivity).
-  rewrite forallb_forall in H. specialize (H o Ho). rewrite forallb_forall in H.
-  specialize (H j (In_zrange_from 1001 0 j ltac:(lia))). apply andb_prop in H. destruct H as [H1 H2].
-  unfold family_ok in *. destruct neg; [apply andb_prop in H2; destruct H2 as [A B] | apply andb_prop in H1; destruct H1 as [A B]];
-    split; auto; now apply Nat.eqb_eq.
+  intros neg o j Ho Hj. pose proof (famP_true o j Ho Hj) as H. unfold famP in H.
+  apply andb_prop in H. destruct H as [H1 H2].
+  destruct neg; [clear H1; rename H2 into H0 | clear H2; rename H1 into H0];
+    unfold family_ok in H0; apply andb_prop in H0; destruct H0 as [A B];
+    apply Nat.eqb_eq in B; (split; [exact A | exact B]).
 Qed.
 
 (* the family really is the multiples k*pi/2 of the sweep: for small k both constructions give the same float *)
